@@ -50,6 +50,11 @@ MUTANTS = [
     ('m29-execute-guard-left-armed', 'C11', 'server', 'tarpc/src/server.rs', r'response_guard\.cancel = false;\n(\s*\}\n\}\n\nfn print_err)', r'let _ = &mut response_guard;\n\1'),
     ('m30-stale-close-erases-live-count', 'C13', 'channels', 'tarpc/src/server/limits/channels_per_key.rs', r'if o\.get\(\)\.strong_count\(\) == 0 \{\n\s*o\.remove\(\);\n\s*\}', 'o.remove();'),
     ('m31-admit-at-limit', 'C13', 'channels', 'tarpc/src/server/limits/channels_per_key.rs', r'if count >= usize::try_from', 'if count > usize::try_from'),
+    ('m33-compact-clears-small-maps', 'C11', 'util_compact', 'tarpc/src/util.rs', r'self\.shrink_to\(cap as usize\);', 'if self.len() < 8 { self.clear(); }\n        self.shrink_to(cap as usize);'),
+    ('m34-server-clamps-handler-deadline', 'C07', 'server', 'tarpc/src/server.rs', r'(mut request: Request<Req>,\n\s*\) -> Result<TrackedRequest<Req>, AlreadyExistsError> \{\n)', r'\1        request.context.deadline = request.context.deadline.min(Instant::now() + MAX_TIMER_DELAY);\n'),
+    ('m35-unbounded-send-to-closed-peer-reports-ok', 'C15', 'transports', 'tarpc/src/transport/channel.rs', r'(fn start_send\(self: Pin<&mut Self>, item: SinkItem\) -> Result<\(\), Self::Error> \{\n)(\s*self\.tx\n\s*\.send\(item\))', r'\1        if self.tx.is_closed() {\n            return Ok(());\n        }\n\2'),
+    ('m36-bounded-flush-not-forwarded', 'C15', 'transports', 'tarpc/src/transport/channel.rs', r'self\.project\(\)\n\s*\.tx\n\s*\.poll_flush\(cx\)\n\s*\.map_err\(\|e\| ChannelError::Send\(Box::new\(e\)\)\)', 'Poll::Ready(Ok(()))'),
+    ('m37-serde-end-of-stream-reported-as-pending', 'C15', 'transports', 'tarpc/src/serde_transport.rs', r'(fn poll_next\(self: Pin<&mut Self>, cx: &mut Context<\'_>\) -> Poll<Option<io::Result<Item>>> \{\n)(\s*)self\.project\(\)\n\s*\.inner\n\s*\.poll_next\(cx\)\n\s*\.map_err\(\|e\| io::Error::new\(io::ErrorKind::Other, e\)\)', r'\1\2match self.project().inner.poll_next(cx).map_err(|e| io::Error::new(io::ErrorKind::Other, e)) {\n\2    Poll::Ready(None) => Poll::Pending,\n\2    other => other,\n\2}'),
     ('m32-new-child-loses-sampling', 'C18', 'trace_ctx', 'tarpc/src/trace.rs', r'sampling_decision: self\.sampling_decision,\n(\s*)\}\n(\s*)\}\n\}\n\nimpl TraceId', r'sampling_decision: SamplingDecision::Unsampled,\n\1}\n\2}\n}\n\nimpl TraceId'),
 ]
 
